@@ -95,7 +95,8 @@ def toEv (kind : String) (id a : Int) : Option Ev :=
   | "wg.waited" => some .waited
   | "close" => some .close
   | "pp.recv" | "pp.buf" | "pp.fwd" | "pp.fail" | "pp.abandon" | "bp.bounce" | "bp.add" | "bp.sent" | "bp.sent.end"
-  | "bp.answered" | "bp.answered.end" => some .other
+  | "bp.answered" | "bp.answered.end" | "bp.recv" | "bp.handover" | "bp.resp" | "bp.resp.end" | "bp.verdict"
+  | "bp.closing" | "bp.drop" => some .other
   | _ => none
 
 def step (d : DS) (t : List String) : DS × String :=
